@@ -156,6 +156,31 @@ def assemble(unit_dir, cfg, read=repo_read):
             raise Undecided("lost anchor: %s :: %s (%s)" % (rel, " :: ".join(ent["item"]), e))
         key = rel + " :: " + " :: ".join(ent["item"])
         kind = it.kind
+        if "let" in ent:
+            # statement slice: initialiser of one `let`, wrapped as a function of its free names
+            try:
+                expr = rs.slice_let(text, it, ent["let"], ent.get("nth", 0), ent.get("count"))
+            except rs.ScanError as e:
+                raise Undecided("lost anchor: %s :: let %s (%s)" % (key, ent["let"], e))
+            for a_, b_ in ent.get("subst", {}).items():
+                if a_ not in expr:
+                    raise Undecided("lost anchor: %r not in the initialiser of `let %s`" % (a_, ent["let"]))
+                expr = expr.replace(a_, b_)
+            skey = key + " :: let " + ent["let"] + ("#%d" % ent["nth"] if "nth" in ent else "")
+            con = cons.get(skey)
+            if con is None:
+                raise Undecided("no contract for slice %s" % skey)
+            used.add(skey)
+            close_impl()
+            spec = ""
+            if con["requires"]:
+                spec += "\n    requires\n" + "\n".join(con["requires"])
+            if con["ensures"]:
+                spec += "\n    ensures\n" + "\n".join(con["ensures"])
+            hint = "\n".join(con["hints"].get("0", []))
+            body.append("// ---- statement slice: %s\n%s%s\n{\n    %s\n    %s\n}\n\n" % (skey, ent["as_fn"], spec, hint, expr))
+            edits.append("slice %s as `%s` (rest of the function dropped; substitutions %s)" % (skey, ent["as_fn"], ent.get("subst", {})))
+            continue
         if kind == "fn":
             con = cons.get(key)
             if con is not None:
